@@ -331,6 +331,17 @@ fn exec_inner(line: &str) -> String {
             }
             by_enc!(*e, mix, &b, m)
         }
+        // the whole method transcript of one type family (implementation only; the model has no
+        // counterpart: used to compare the two feature configurations, C20)
+        ["tx", fam, e, s, a] => {
+            let (b, x) = (h!(s), h!(a));
+            let win = match *e {
+                "u" => false,
+                "w" => true,
+                _ => return BAD.into(),
+            };
+            crate::orc_d::transcript(fam, win, &b, &x).join(" | ")
+        }
         ["comps", e, s] => {
             let b = h!(s);
             by_enc!(*e, comps, &b)
